@@ -203,6 +203,10 @@ func renderRequirements(recs []crec, l lay) rendered {
 			}
 			if l.Comments == "line" {
 				out = append(out, "# comment: fake-package==9.9.9", "    # indented comment")
+				if i%2 == 1 {
+					// pip never joins a comment line with the next line, even when its text ends in a backslash
+					out = append(out, `# generated from C:\build\reqs\`)
+				}
 			}
 			out = append(out, it...)
 		}
